@@ -40,7 +40,10 @@ def replay(recs):
             if t == "translation":
                 v = r["v"]
                 forms = [("scalars", lambda: g.translation(*v)), ("point", lambda: g.translation(g.Point(*v))),
-                         ("scaled-representative", lambda: g.translation(g.Point(np.array([3 * x for x in v] + [3]))))]
+                         ("scaled-representative", lambda: g.translation(g.Point(np.array([3 * x for x in v] + [3])))),
+                         ("negative-representative", lambda: g.translation(g.Point(np.array([-2.0 * x for x in v] + [-2.0]))))]
+                if any(v):      # a point at infinity given as the offset acts as the direction vector (as in point + direction)
+                    forms.append(("direction", lambda: g.translation(g.Point(np.array(list(v) + [0])))))
                 for name, fn in forms:
                     tr = fn()
                     bad = None if mclass(tr, r["M"]) else {"matrix": np.asarray(tr.array).tolist()}
